@@ -7,7 +7,10 @@ P: RG.Engine.RenderSpec proves, for all templates and capture sets with distinct
    against it; the statements of handleMatch / handleCommentMatch / renderMessage / loadSyntaxRule / loadCommentRule
    that the model mirrors are re-read from source as facts and must all hold.
    The scanning loop of renderMessage is translated from runner.go statement by statement (go2coq c03loop) and proved on
-   every run to compute that interpolation for all templates and capture lists (Inst_RenderLoop.v).
+   every run to compute that interpolation for all templates and capture lists (Inst_RenderLoop.v); so are the statements
+   in front of it (go2coq c03pre: the filter that drops captures without a usable node, the sort): proved on every run to
+   leave the live captures sorted STABLY by name length, hence `$name` is the longest name that fits and the FIRST capture
+   of that name, for all capture lists -- names may repeat (Inst_RenderPre.v; nothing is assumed about sort.Slice).
 K: the Coq models gen_render_msg (the translated loop) / render_msg / node_text / mk_report+load_alternatives are executed (vm_compute) on the same template,
    capture list, offsets and TruncateLen as the real renderMessage / nodeText (hooks) and as engine-level runs.
 O: an independent Go implementation of the specification (longest name, source slices taken from offsets known by
@@ -61,10 +64,10 @@ def guard_fixedtext(msg, caps, whole_fix):
 
 
 def run(c):
-    c.go2coq_sources = ["c03.go", "textmatch.go", "c03loop.go"]   # private translator build: another family's generator cannot break this check
+    c.go2coq_sources = ["c03.go", "textmatch.go", "c03loop.go", "c03pre.go"]   # private translator build: another family's generator cannot break this check
     thorough = c.tier == "thorough"
     c.rule = ("direct: renderMessage (hook) on capture sets drawn from 10 name chains whose names prefix one another, in shuffled "
-              "order, with typed-nil captures, templates from a token grammar ($name, $name.b, $namez, $$, $nope, lone $), with and "
+              "order, some names twice or three times, up to 20 captures, with typed-nil / nil-interface / empty-node-slice captures, templates from a token grammar ($name, $name.b, $namez, $$, $nope, lone $), with and "
               "without truncation under 7 TruncateLen values; nodeText (hook) on every expression of a file incl. nodes ending at EOF "
               "and nodes beyond a truncated copy; engine: generated rule groups (1-2 alternatives on separate lines, $* lists, At(), "
               "Suggest incl. `$$` and the pattern's own text, MatchComment alternatives) over a generated target with offsets known by "
@@ -72,8 +75,11 @@ def run(c):
     c.trusted += [
         "go2coq c03extras (nodeText in-range test through the leaf translator; statement-shape facts of the report path)",
         "go2coq c03loop: the statement-level Go->Gallina translator of renderMessage's scanning loop (its reading of Go: let for :=/=, ++ for append, "
-        "partial slices in the outcome monad, tuple joins for if/else, match for the nil test, range_first for the capture loop); the typed-nil filter "
-        "and the sort in front of the loop are modelled by hand (RenderSpec.sort_len) -- tied by correspondence through hook VerifRenderMessage and engine runs",
+        "partial slices in the outcome monad, tuple joins for if/else, match for the nil test, range_first for the capture loop) and c03pre, the "
+        "translator of the statements in front of the loop (fold over the captures in the outcome monad, short-circuit || / && with an operand that "
+        "can panic, sort.Slice / sort.SliceStable kept apart as two abstract operations)",
+        "sort.SliceStable is the stable insertion sort (RenderPre.stable_sort: a sorted permutation in which equal elements keep their order); "
+        "reflect.ValueOf(n).IsNil() panics on a nil interface, is true for a typed nil pointer and false for a node / a node slice",
         "go/parser, go/types and gogrep deliver the match and its captures; go/token offsets",
         "harness/cmd/c03 (its independent specification oracle) and hooks VerifRenderMessage / VerifNodeText (build tag verif)",
     ]
@@ -81,7 +87,7 @@ def run(c):
                 "known finding: fixedText deliberately renders `$x.f` with x=`&a` as `a.f` (not the exact source text)"]
 
     c.sh([os.path.join(c.verif, "coq", "build.sh")], timeout=3400)
-    c.require_theories("Base/*.v", "Regex/Utf8.v", "Engine/TruncateSpec.v", "Engine/RenderSpec.v", "Engine/RenderLoop.v")
+    c.require_theories("Base/*.v", "Regex/Utf8.v", "Engine/TruncateSpec.v", "Engine/RenderSpec.v", "Engine/RenderLoop.v", "Engine/RenderPre.v")
 
     gen_ok = False
     loop_ok = False
@@ -92,15 +98,31 @@ def run(c):
     if c.go2coq("c03loop", "Gen_C03Loop.v"):
         if c.coq_compile(["Gen_C03Loop.v"]):
             loop_ok = True
+    # the statements of renderMessage in front of the loop (capture filter + sort), translated likewise
+    pre_ok = False
+    if c.go2coq("c03pre", "Gen_C03Pre.v"):
+        if c.coq_compile(["Gen_C03Pre.v"]):
+            pre_ok = True
     if gen_ok:
-        c.install_tmpl("C03/Inst_Render.v", "C03/Def_RenderLoop.v", "C03/Inst_RenderLoop.v", "C03/C03.v")
+        c.install_tmpl("C03/Inst_Render.v", "C03/Def_RenderLoop.v", "C03/Inst_RenderLoop.v", "C03/Def_RenderPre.v", "C03/Inst_RenderPre.v", "C03/C03.v")
         c.coq_compile(["Inst_Render.v"])
         if loop_ok:
             loop_ok = c.coq_compile(["Def_RenderLoop.v"])   # definitions only: the executed model
+        if loop_ok and pre_ok:
+            pre_ok = c.coq_compile(["Def_RenderPre.v"])     # definitions only: the executed model
+        else:
+            pre_ok = False
         if loop_ok:
-            c.coq_compile(["Inst_RenderLoop.v", "C03.v"])
+            c.coq_compile(["Inst_RenderLoop.v"])
         else:
             c.obligation("coq:Inst_RenderLoop.v", False, "not compiled: the scanning loop did not translate")
+        if pre_ok:
+            c.coq_compile(["Inst_RenderPre.v"])
+        else:
+            c.obligation("coq:Inst_RenderPre.v", False, "not compiled: the statements in front of the scanning loop did not translate")
+        if loop_ok and pre_ok:
+            c.coq_compile(["C03.v"])
+        else:
             c.obligation("coq:C03.v", False, "not compiled: a file it depends on failed")
 
     hb = c.build_harness("c03")
@@ -125,7 +147,7 @@ def run(c):
 
     def coq_caps(caps):
         return "[" + ";".join("((%s, %s, %s), %s)" % (coq_bytes(x["name"].encode()), coq_bytes(b64(x.get("text"))),
-                                                     "true" if x.get("fix") else "false", "true" if x.get("nil") else "false")
+                                                     "true" if x.get("fix") else "false", "%d" % (x.get("kind") or (1 if x.get("nil") else 0)))
                               for x in caps) + "]"
 
     def coq_nodes(caps):
@@ -257,14 +279,19 @@ def run(c):
             "From Coq Require Import List ZArith Bool Arith.",
             "From RG.Base Require Import Outcome GoInt GoSlice.",
             "From RG.Engine Require Import TruncateSpec RenderSpec.",
-            ("From RG.Engine Require Import RenderLoop.\nFrom RGW Require Import Gen_C03Loop Def_RenderLoop.\n"
-             "Definition render_model (tr : option Z) (caps : list ccap) (w : bytes) (wf : bool) (msg : bytes) : outcome bytes := gen_render_msg tr caps w wf msg."
-             if loop_ok and gen_ok else
-             "Definition render_model (tr : option Z) (caps : list ccap) (w : bytes) (wf : bool) (msg : bytes) : outcome bytes := Ok (render_msg tr caps w wf msg)."),
+            "Definition live (l : list (ccap * Z)) : list ccap := map fst (filter (fun p => (snd p =? 0)%Z || (snd p =? 3)%Z) l).",
+            # the executed model: capture preparation AND loop as translated from the source when both translate
+            ("From RG.Engine Require Import RenderLoop RenderPre.\nFrom RGW Require Import Gen_C03Loop Def_RenderLoop Gen_C03Pre Def_RenderPre.\n"
+             "Definition render_model (tr : option Z) (caps : list (ccap * Z)) (w : bytes) (wf : bool) (msg : bytes) : outcome bytes := "
+             "gen_render_msg_full tr (map to_val caps) w wf msg."
+             if loop_ok and pre_ok and gen_ok else
+             ("From RG.Engine Require Import RenderLoop.\nFrom RGW Require Import Gen_C03Loop Def_RenderLoop.\n"
+              "Definition render_model (tr : option Z) (caps : list (ccap * Z)) (w : bytes) (wf : bool) (msg : bytes) : outcome bytes := gen_render_msg tr (live caps) w wf msg."
+              if loop_ok and gen_ok else
+              "Definition render_model (tr : option Z) (caps : list (ccap * Z)) (w : bytes) (wf : bool) (msg : bytes) : outcome bytes := Ok (render_msg tr (live caps) w wf msg).")),
             "From RGW Require Import Gen_C03." if gen_ok else
-            "Definition nodeTextInRange (from to : Z) (src : bytes) : outcome bool := Ok ((0 <=? from)%Z && (from <? len src)%Z && ((0 <=? to)%Z && (to <=? len src)%Z)).",
+            "Definition nodeTextInRange (from to : Z) (src : bytes) : outcome bool := Ok ((0 <=? from)%Z && (from <? len src)%Z && ((from <=? to)%Z && (to <=? len src)%Z)).",
             "Import ListNotations. Local Open Scope Z_scope.",
-            "Definition live (l : list (ccap * bool)) : list ccap := map fst (filter (fun p => negb (snd p)) l).",
             "Definition rep_eqb (m : option mreport) (pos end_ : Z) (msg : bytes) (hs : bool) (sf st : Z) (sg : bytes) (ln : Z) : bool :=",
             "  match m with None => false | Some r => (rep_pos r =? pos) && (rep_end r =? end_) && bytes_eqb (rep_msg r) msg && (rep_line r =? ln) &&",
             "    match rep_sugg r with None => negb hs | Some (f, t, s) => hs && (f =? sf) && (t =? st) && bytes_eqb s sg end end.",
@@ -275,13 +302,13 @@ def run(c):
 
         def shard(rs, ns, es):
             src = [pre]
-            src.append("Definition rcases : list (Z * option Z * list (ccap * bool) * bytes * bool * bytes * bytes) := [")
+            src.append("Definition rcases : list (Z * option Z * list (ccap * Z) * bytes * bool * bytes * bytes) := [")
             src.append(";\n".join("(%d, %s, %s, %s, %s, %s, %s)" % (
                 i, ("(Some (%d))" % o["L"]) if o["trunc"] else "None", coq_caps(o["caps"]), coq_bytes(b64(o["whole"].get("text"))),
                 "true" if o["whole"].get("fix") else "false", coq_bytes(o["msg"].encode()), coq_bytes(o["out"])) for i, o in rs))
             src.append("].")
             src.append("Definition bad_render := map (fun c => match c with (i, tr, caps, w, wf, msg, out) => i end) (filter (fun c => "
-                       "match c with (i, tr, caps, w, wf, msg, out) => match render_model tr (live caps) w wf msg with Ok r => negb (bytes_eqb r out) | Panic _ => true end "
+                       "match c with (i, tr, caps, w, wf, msg, out) => match render_model tr caps w wf msg with Ok r => negb (bytes_eqb r out) | Panic _ => true end "
                        "end) rcases).")
             # nodeText: the file is only needed through its length and the wanted slice; model input = a file of srcn bytes
             # whose [from,to) part is the observed text when in range: use a synthetic file  pad ++ want ++ pad
